@@ -2,6 +2,7 @@
 correspondence shards inside Coq, verdicts, evidence, known findings, replays."""
 import hashlib, json, os, re, subprocess, sys, time, glob, shutil
 from concurrent.futures import ThreadPoolExecutor
+import contextlib, fcntl, functools, threading
 
 ROOT = os.path.dirname(os.path.dirname(os.path.abspath(__file__)))
 CACHE = os.path.join(ROOT, ".cache")
@@ -108,6 +109,57 @@ def dep_proof_targets(layer, dep):
     return out
 
 
+# ---------------------------------------------------------------------------------------------------------------------
+# Checks may be started concurrently (several `./vf check` processes).  Everything that writes a shared artefact -- a layer's
+# .vo files, a cargo workspace, a cached generated run -- runs under an advisory file lock named after the artefact.  The lock
+# is re-entrant inside one process; acquisition order is always run-cache -> coq_<layer> -> coq_<dependency layer> (acyclic).
+_LOCKS = {}
+_LOCKS_GUARD = threading.RLock()
+
+
+@contextlib.contextmanager
+def locked(name):
+    path = os.path.join(CACHE, "locks")
+    os.makedirs(path, exist_ok=True)
+    with _LOCKS_GUARD:
+        ent = _LOCKS.get(name)
+        if ent and ent[2] == threading.get_ident():
+            ent[1] += 1
+            reent = True
+        else:
+            reent = False
+    if reent:
+        try:
+            yield
+        finally:
+            with _LOCKS_GUARD:
+                _LOCKS[name][1] -= 1
+        return
+    f = open(os.path.join(path, name + ".lock"), "w")
+    fcntl.flock(f, fcntl.LOCK_EX)
+    with _LOCKS_GUARD:
+        _LOCKS[name] = [f, 1, threading.get_ident()]
+    try:
+        yield
+    finally:
+        with _LOCKS_GUARD:
+            _LOCKS.pop(name, None)
+        fcntl.flock(f, fcntl.LOCK_UN)
+        f.close()
+
+
+def serialized(name_fn):
+    """decorator: run the function under the lock named name_fn(*args, **kwargs) (or the constant string name_fn)"""
+    def deco(fn):
+        @functools.wraps(fn)
+        def wrapper(*a, **k):
+            with locked(name_fn(*a, **k) if callable(name_fn) else name_fn):
+                return fn(*a, **k)
+        return wrapper
+    return deco
+
+
+@serialized(lambda layer, *a, **k: "coq_" + layer)
 def build_layer(layer, jobs=16, timeout=3000, targets=None):
     """Build a layer through coq_makefile (full .vo compilation, never -vos).
     targets=None builds everything; targets="models" builds Base/Model/Corr only; a list builds those .vo
@@ -147,6 +199,7 @@ def build_layer(layer, jobs=16, timeout=3000, targets=None):
     return rc, out
 
 
+@serialized(lambda layer, *a, **k: "coq_" + layer)
 def compile_property(layer, prop):
     """Re-run coqc on Properties/<prop>.v so this run's Print Assumptions output is fresh.
     Returns dict(ok, obligations, discharged, axioms, closed, output, theorems)."""
@@ -177,6 +230,7 @@ def compile_property(layer, prop):
 
 
 # ---------------------------------------------------------------------------------- harness
+@serialized(lambda pkg, timeout=1800, ws="harness": "cargo_" + ws)
 def build_harness(pkg, timeout=1800, ws="harness"):
     hd = os.path.join(ROOT, ws)
     lock = os.path.join(hd, "Cargo.lock")
@@ -377,6 +431,7 @@ def proof_stage(chk, layer, prop):
     return ok
 
 
+@serialized(lambda chk, layer, *a, **k: "coq_" + layer)
 def coqchk_property(chk, layer, prop, timeout=1500):
     """Thorough tier: re-check the compiled property module and everything it depends on with the independent
     checker and compare the axiom list it prints with the allow-list."""
